@@ -31,6 +31,8 @@ def extra(led, tier, seed):
     led.extend(o for o in predict_glue.obligations() if o.name.startswith("Douglas."))
     from contracts import dtype_native
     led.extend(dtype_native.predict_dtypes(seed, only=("Douglas",)))
+    from contracts import infer_local
+    led.extend(o for o in infer_local.native_locality_large(seed, tier) if "Douglas" in o.name)
     from contracts import lean_bounds
     led.extend(lean_bounds.obligations(tier, file="Lemmas.lean", lemmas=["bin_argmax"], fn="specs.douglas (lemma L9)"))
     led.extend(douglas.lemma_link_L9(led.obs))
